@@ -144,6 +144,7 @@ pub type Triple { Triple(ta: Int, tb: String, tc: Float) }
 pub type G(a, b, c) { G(ga: a, gb: b, gc: c) }
 pub type U3 { U3(Int, String, Float) }
 pub type M4(d) { M4(Int, mb: String, mc: Float, md: d) }
+pub type N(a, b) { N(nl: List(a), nt: #(b, a), nf: fn(a) -> b, nb: Box(a)) }
 type Ints = List(Int)
 fn inc(n: Int) -> Int { n + 1 }
 fn add(a: Int, b: Int) -> Int { a + b }
@@ -154,9 +155,10 @@ fn mk(a, b) { #(a, b) }
 fn try_(r: Result(a, e), k: fn(a) -> Result(b, e)) -> Result(b, e) { case r { Ok(v) -> k(v) Error(e) -> Error(e) } }
 fn map(l: List(a), f: fn(a) -> b) -> List(b) { case l { [] -> [] [h, ..t] -> [f(h), ..map(t, f)] } }
 fn apply(v: a, k: fn(a) -> b) -> b { k(v) }
+fn show(n: Int) -> String { todo }
 ";
 
-const PARAMS: &str = "i: Int, f: Float, s: String, b: Bool, l: List(Int), t: #(Int, String), r: Result(Int, String), g: fn(Int) -> Int, c: Color, p: Pair, bx: Box(Int), ls: List(String), tr: Triple, gg: G(Int, String, Float), u3: U3, m4: M4(Bool)";
+const PARAMS: &str = "i: Int, f: Float, s: String, b: Bool, l: List(Int), t: #(Int, String), r: Result(Int, String), g: fn(Int) -> Int, c: Color, p: Pair, bx: Box(Int), ls: List(String), tr: Triple, gg: G(Int, String, Float), u3: U3, m4: M4(Bool), nn: N(Int, String)";
 
 fn pair() -> RTy {
     Named("Pair".into(), vec![])
@@ -446,6 +448,8 @@ fn record_cases() -> Vec<(String, Vec<(String, RTy)>)> {
         Spec { ctor: "G", subj: "gg", ty: Named("G".into(), vec![Int, Str, Float]), fields: vec![(Some("ga"), Int, "i"), (Some("gb"), Str, "s"), (Some("gc"), Float, "f")] },
         Spec { ctor: "U3", subj: "u3", ty: Named("U3".into(), vec![]), fields: vec![(None, Int, "i"), (None, Str, "s"), (None, Float, "f")] },
         Spec { ctor: "M4", subj: "m4", ty: Named("M4".into(), vec![Bool]), fields: vec![(None, Int, "i"), (Some("mb"), Str, "s"), (Some("mc"), Float, "f"), (Some("md"), Bool, "b")] },
+        // type parameters nested inside the field types
+        Spec { ctor: "N", subj: "nn", ty: Named("N".into(), vec![Int, Str]), fields: vec![(Some("nl"), List(Box::new(Int)), "l"), (Some("nt"), Tuple(vec![Str, Int]), "#(s, i)"), (Some("nf"), Fn(vec![Int], Box::new(Str)), "show"), (Some("nb"), boxed(Int), "bx")] },
     ];
     let mut out = vec![];
     // ordered selections of a set of indices
@@ -517,6 +521,10 @@ fn record_cases() -> Vec<(String, Vec<(String, RTy)>)> {
     }
     // field access
     out.push(("let racc = #(tr.ta, tr.tb, tr.tc, gg.ga, gg.gb, gg.gc, m4.mb, m4.mc, m4.md)".into(), vec![("racc".into(), Tuple(vec![Int, Str, Float, Int, Str, Float, Str, Float, Bool]))]));
+    for (f, t) in [("nl", List(Box::new(Int))), ("nt", Tuple(vec![Str, Int])), ("nf", Fn(vec![Int], Box::new(Str))), ("nb", boxed(Int))] {
+        out.push((format!("let racc_{f} = nn.{f}"), vec![(format!("racc_{f}"), t.clone())]));
+        out.push((format!("let rcon_{f} = N(nl: l, nt: #(s, i), nf: show, nb: bx).{f}"), vec![(format!("rcon_{f}"), t)]));
+    }
     out
 }
 
@@ -1297,7 +1305,7 @@ pub fn run(tier: Tier) -> i32 {
             }
         }
     }
-    rl.bound = format!("{} statements: for four records (all fields labelled; generic; no labels; one unlabelled then three labelled with a type parameter) with fields of distinct types, every positional prefix followed by every ordered selection of the remaining labelled fields (patterns in let and in case, with `..` when incomplete; complete constructor calls), plus field access", rcs.len());
+    rl.bound = format!("{} statements: for five records (all fields labelled; generic; no labels; one unlabelled then three labelled with a type parameter; type parameters nested inside list / tuple / function / record field types) with fields of distinct types, every positional prefix followed by every ordered selection of the remaining labelled fields (patterns in let and in case, with `..` when incomplete; complete constructor calls), plus field access", rcs.len());
     rep.layer(rl);
     // binders typed by their context x projections
     let ccs = context_cases();
